@@ -121,6 +121,7 @@ struct WdWorld {
     log: Fnv,
     rounds_with_failure: u32,
     rounds_with_quorum: u32,
+    last_state: u64,
 }
 
 fn poll_tick() -> Result<(), String> {
@@ -200,6 +201,7 @@ impl WdWorld {
             log: Fnv::default(),
             rounds_with_failure: 0,
             rounds_with_quorum: 0,
+            last_state: 0,
         }
     }
 
@@ -316,6 +318,20 @@ impl WdWorld {
         };
         self.stats.oracle_comparisons += 1;
         self.log.write_str(&format!("{:?}{:?}", got, want));
+        {
+            // abstract state of a round: (decision, #successful explorers, canister known, flag, failing calls)
+            let mut f = Fnv::default();
+            f.write_str(&format!("{:?}", want));
+            f.write_u64(heights.len() as u64);
+            f.write_u64(spec.canister_height.is_some() as u64 | (spec.actual_flag.map(|b| 1 + b as u64).unwrap_or(0) << 1) | (spec.set_config_fails as u64) << 3);
+            f.write_u64(self.cfg.min_explorers);
+            self.stats.abstract_states.insert(f.0);
+            let mut t = Fnv::default();
+            t.write_u64(self.last_state);
+            t.write_u64(f.0);
+            self.stats.abstract_transitions.insert(t.0);
+            self.last_state = f.0;
+        }
         let desc = format!(
             "explorer results this round {:?} (spec {:?}), canister height {:?}, thresholds -{}/+{}, min_explorers {}",
             expected, spec.explorers, spec.canister_height, self.cfg.blocks_behind_threshold, self.cfg.blocks_ahead_threshold, self.cfg.min_explorers
